@@ -85,6 +85,29 @@ class Loader(yaml.SafeLoader):
             node = self.__process_node(node, type(self).document_type)
         return node
 
+    def construct_object(self, node: yaml.Node, deep: bool = False) -> Any:
+        """Constructs an object from a node, called by PyYAML.
+
+        PyYAML's constructors for the built-in scalar types raise
+        whatever the conversion raises (ValueError, KeyError,
+        AttributeError, ...) if the text does not denote a value of
+        the type its tag claims, e.g. for ``!!int abc`` or the date
+        ``2001-13-45``. That is invalid input, so we report it as such.
+        """
+        try:
+            return super().construct_object(node, deep)
+        except (yaml.YAMLError, RecognitionError):
+            raise
+        except Exception as e:
+            if (
+                    isinstance(node, yaml.ScalarNode) and
+                    node.tag.startswith('tag:yaml.org,2002:')):
+                raise RecognitionError((
+                    '{}\nCould not convert "{}" to a value of type {}:'
+                    ' {}').format(
+                        node.start_mark, node.value, node.tag[18:], e))
+            raise
+
     def __expand_aliases(
             self, node: yaml.Node, ancestors: 'frozenset[int]') -> yaml.Node:
         """Replaces every alias by a copy of the anchored node.
